@@ -60,6 +60,10 @@ def curated(tier):
         add("quadrature_element", cell)
     from vf.corpus import ARG_PAIRS, ZOO
 
+    add("tensor3", "triangle", p={"shape": [2, 3, 2]})
+    add("tensor3", "interval", p={"shape": [3, 2, 1]})
+    add("tensor3", "triangle", p={"shape": [2, 3, 2], "arity": 2})
+
     for k, (te, tr) in enumerate(ARG_PAIRS):
         for cell in ("triangle", "tetrahedron") if "CR" in (te[0], tr[0]) or "bubble" in (te[0], tr[0]) else ("triangle", "quadrilateral", "interval"):
             if cell == "interval" and ("CR" in (te[0], tr[0])):
